@@ -59,4 +59,63 @@ theorem modelAt_shift (ox oy : ℝ) (ps : List (Par ℝ)) (x y : ℝ) :
     simp only [List.map_cons, List.sum_cons] at ih ⊢
     rw [ih, gauss_shiftPar]
 
+/-! ### the 3×3 "has data" box around a component (source_finder.py, before the fit)
+
+`xmn = int(round(np.clip(cx − 1, 0, idata.shape[0])))`, `xmx = int(round(np.clip(cx + 2, 0, idata.shape[0])))`,
+the same for columns with `idata.shape[1]`; the component is fitted iff `idata[xmn:xmx, ymn:ymx]` holds a
+finite pixel.  `np.clip(v, lo, hi) = min(max(v, lo), hi)`; `rnd` is the rounding (`int(round(·))`). -/
+
+noncomputable def clipR (v lo hi : ℝ) : ℝ := min (max v lo) hi
+
+/-- first and one-past-last **row** of the box: clipped to the cut-out's row extent -/
+noncomputable def dataBoxRows (rnd : ℝ → ℤ) (rows cols : Nat) (cx cy : ℝ) : ℤ × ℤ :=
+  (rnd (clipR (boxLoX cx cy) (clipXLo rows cols : ℕ) (clipXHi rows cols : ℕ)),
+   rnd (clipR (boxHiX cx cy) (clipXLo rows cols : ℕ) (clipXHi rows cols : ℕ)))
+
+/-- first and one-past-last **column** of the box: clipped to the cut-out's column extent -/
+noncomputable def dataBoxCols (rnd : ℝ → ℤ) (rows cols : Nat) (cx cy : ℝ) : ℤ × ℤ :=
+  (rnd (clipR (boxLoY cx cy) (clipYLo rows cols : ℕ) (clipYHi rows cols : ℕ)),
+   rnd (clipR (boxHiY cx cy) (clipYLo rows cols : ℕ) (clipYHi rows cols : ℕ)))
+
+/-- what is used of `int(round(·))`: monotone, fixes integers, never more than half above its argument -/
+structure RoundLaw (rnd : ℝ → ℤ) : Prop where
+  mono : ∀ a b : ℝ, a ≤ b → rnd a ≤ rnd b
+  int : ∀ n : ℤ, rnd (n : ℝ) = n
+  half : ∀ v : ℝ, ((rnd v : ℤ) : ℝ) ≤ v + 1 / 2
+
+/-- one axis: if the component's own rounded pixel `c = rnd v` lies in `[0, H)` then it lies in
+    `[rnd(clip(v − 1, 0, H)), rnd(clip(v + 2, 0, H)))` -/
+theorem own_pixel_in_axis_box (rnd : ℝ → ℤ) (hr : RoundLaw rnd) (H : ℕ) (v : ℝ)
+    (h0 : 0 ≤ rnd v) (h1 : rnd v < (H : ℤ)) :
+    rnd (clipR (v - 1) ((0 : ℕ) : ℝ) (H : ℝ)) ≤ rnd v ∧ rnd v < rnd (clipR (v + 2) ((0 : ℕ) : ℝ) (H : ℝ)) := by
+  have hH : ((rnd v : ℤ) : ℝ) + 1 ≤ (H : ℝ) := by
+    have : rnd v + 1 ≤ (H : ℤ) := by omega
+    exact_mod_cast this
+  have hhalf := hr.half v
+  constructor
+  · by_cases hv : (0 : ℝ) ≤ v - 1
+    · apply hr.mono
+      unfold clipR
+      have : max (v - 1) ((0 : ℕ) : ℝ) = v - 1 := by simp [hv]
+      rw [this]
+      exact le_trans (min_le_left _ _) (by linarith)
+    · have hle : clipR (v - 1) ((0 : ℕ) : ℝ) (H : ℝ) ≤ ((0 : ℤ) : ℝ) := by
+        unfold clipR
+        have : max (v - 1) ((0 : ℕ) : ℝ) = 0 := by
+          simp only [Nat.cast_zero]; exact max_eq_right (by linarith)
+        rw [this]
+        simp
+      have := hr.mono _ _ hle
+      rw [hr.int 0] at this
+      omega
+  · have hge : ((rnd v + 1 : ℤ) : ℝ) ≤ clipR (v + 2) ((0 : ℕ) : ℝ) (H : ℝ) := by
+      unfold clipR
+      push_cast
+      apply le_min
+      · exact le_trans (by linarith) (le_max_left _ _)
+      · exact hH
+    have := hr.mono _ _ hge
+    rw [hr.int] at this
+    omega
+
 end Aegean.Proofs.C05
